@@ -1,5 +1,15 @@
-import SaoVerif.Generated.Skeleton
-import SaoVerif.Spec.SkeletonExpected
+import SaoVerif.Skeleton.x_sao_abci_go
+import SaoVerif.Skeleton.x_sao_keeper_expire_management_go
+import SaoVerif.Skeleton.x_sao_keeper_timeout_management_go
+import SaoVerif.Skeleton.x_node_abci_go
+import SaoVerif.Skeleton.x_node_keeper_node_go
+import SaoVerif.Skeleton.x_node_keeper_reputation_go
+import SaoVerif.Skeleton.x_node_keeper_shard_pledge_management_go
+import SaoVerif.Skeleton.x_model_abic_go
+import SaoVerif.Skeleton.x_sao_keeper_msg_server_renew_go
+import SaoVerif.Skeleton.x_market_keeper_pool_management_go
+import SaoVerif.Skeleton.x_node_types_params_go
+import SaoVerif.Skeleton.x_node_types_genesis_go
 /-!
 # C02 — the decision logic of the anchor files is the one that was modelled
 
@@ -7,9 +17,10 @@ The extractor (harness/cmd/extract) regenerates, on every run and from the tree 
 function: its branching constructs in source order, each guard with its condition and with how its branch ends (`return <err>`,
 `continue`, `panic`, …). The hand-written model mirrors exactly these decisions (its `…Pre` / `…Guards` functions are the
 guards of the handlers, in their order). This theorem says that for the files the property is anchored in
-(x/sao/abci.go, x/sao/keeper/expire_management.go, x/sao/keeper/timeout_management.go, x/node/abci.go, x/node/keeper/node.go, x/node/keeper/reputation.go, x/node/keeper/shard_pledge_management.go, x/model/abic.go, x/sao/keeper/msg_server_renew.go, x/market/keeper/pool_management.go, x/node/types/params.go, x/node/types/genesis.go) the regenerated skeletons equal the ones the model was written against. A change of a guard, of its
-order, or a new or removed branch breaks it: the correspondence then has to be re-established (the check searches the
-histories for a failing input and reports the violation either way).
+(x/sao/abci.go, x/sao/keeper/expire_management.go, x/sao/keeper/timeout_management.go, x/node/abci.go, x/node/keeper/node.go, x/node/keeper/reputation.go, x/node/keeper/shard_pledge_management.go, x/model/abic.go, x/sao/keeper/msg_server_renew.go, x/market/keeper/pool_management.go, x/node/types/params.go, x/node/types/genesis.go) the regenerated skeletons equal the ones the model was written against
+(one kernel-evaluated equality per source file, `SaoVerif/Skeleton/<file>.lean`). A change of a guard, of its order, or a new or
+removed branch breaks it: the correspondence then has to be re-established (the check searches the histories for a failing
+input and reports the violation either way).
 -/
 namespace SaoVerif
 
@@ -38,6 +49,6 @@ theorem C02_decision_skeleton_as_modelled :
      Expected.Skel.x_market_keeper_pool_management_go,
      Expected.Skel.x_node_types_params_go,
      Expected.Skel.x_node_types_genesis_go] := by
-  decide +kernel
+  rw [skel_x_sao_abci_go, skel_x_sao_keeper_expire_management_go, skel_x_sao_keeper_timeout_management_go, skel_x_node_abci_go, skel_x_node_keeper_node_go, skel_x_node_keeper_reputation_go, skel_x_node_keeper_shard_pledge_management_go, skel_x_model_abic_go, skel_x_sao_keeper_msg_server_renew_go, skel_x_market_keeper_pool_management_go, skel_x_node_types_params_go, skel_x_node_types_genesis_go]
 
 end SaoVerif
